@@ -362,3 +362,50 @@ def from_data_roundtrip(n: int, nf: int, rows: int, as_lists: bool) -> bool:
     for i, a in enumerate(arrays):
         m.cells[(i,)] = a.tolist()
     return agrees(v, m)
+
+
+# ---------------------------------------------------------------------------------- cells of different dtypes
+CELL_DTYPES = [np.int64, np.int32, np.bool_, np.float32, np.float64]
+FRACTIONS = [0.25, -1.5, 7.5, 3.0]
+
+
+def _mixed_case(d0, d1, f0, f1, rows0, rows1):
+    """two populated cells whose arrays have different dtypes (the narrower one first or second): a field's flattened view is
+    the row-major concatenation of that column over the cells with every value intact, and writing it back restores the data"""
+    dt0, dt1 = _pick(CELL_DTYPES, d0), _pick(CELL_DTYPES, d1)
+    x0, x1 = _pick(FRACTIONS, f0), _pick(FRACTIONS, f1)
+
+    def cell(dt, rows, base, frac):
+        vals = [[base + r, (frac if np.dtype(dt).kind == "f" else 1) + r] for r in range(rows)]
+        return np.array(vals, dtype=dt).reshape(rows, 2)
+    c0, c1 = cell(dt0, rows0, 1, x0), cell(dt1, rows1, 5, x1)
+    v = Vector.from_shape((2,), fields=["x", "y"])
+    v[0] = c0.copy()
+    v[1] = c1.copy()
+    for j, name in enumerate(("x", "y")):
+        want = [float(t) for t in c0[:, j]] + [float(t) for t in c1[:, j]]
+        got = v[name].flatten()
+        if len(got) != len(want) or any(float(g) != w for g, w in zip(got, want)):
+            return False
+        v[name].set_flattened(got)
+        again = v[name].flatten()
+        if len(again) != len(want) or any(float(g) != w for g, w in zip(again, want)):
+            return False
+    return bool(np.array_equal(np.asarray(v[0], dtype=float), c0.astype(float)) and np.array_equal(np.asarray(v[1], dtype=float), c1.astype(float)))
+
+
+def mixed_dtypes(d0: int, d1: int, f0: int, f1: int, rows0: int, rows1: int) -> bool:
+    """
+    pre: 0 <= d0 < len(CELL_DTYPES) and 0 <= d1 < len(CELL_DTYPES) and 0 <= f0 < 4 and 0 <= f1 < 4 and 1 <= rows0 <= 2 and 1 <= rows1 <= 2
+    pre: _fix("d0", d0)
+    post: __return__ == True
+    """
+    return _mixed_case(d0, d1, f0, f1, rows0, rows1)
+
+
+def mixed_dtypes__reach(d0: int, d1: int, f0: int, f1: int, rows0: int, rows1: int) -> bool:
+    """
+    pre: 0 <= d0 < len(CELL_DTYPES) and 0 <= d1 < len(CELL_DTYPES) and 0 <= f0 < 4 and 0 <= f1 < 4 and 1 <= rows0 <= 2 and 1 <= rows1 <= 2
+    post: __return__ == False
+    """
+    return _mixed_case(d0, d1, f0, f1, rows0, rows1)
